@@ -150,6 +150,18 @@ theorem SideInv.tick {side : Bool} {time nextId : Nat} {l : List (Order P)}
   placed := fun o ho => Nat.le_succ_of_le (h.placed o (List.mem_filter.mp ho).1)
   alive := fun o ho => by simpa using (List.mem_filter.mp ho).2
 
+/-- the same for a jump of the clock by any number of steps -/
+theorem SideInv.jump {side : Bool} {time nextId : Nat} {l : List (Order P)}
+    (h : SideInv side time nextId l) (k : Nat) :
+    SideInv side (time + k) nextId (Book.keepAt (time + k) l) where
+  sorted := sorted_filter l _ h.sorted
+  side := fun o ho => h.side o (List.mem_filter.mp ho).1
+  pos := fun o ho => h.pos o (List.mem_filter.mp ho).1
+  idlt := fun o ho => h.idlt o (List.mem_filter.mp ho).1
+  nodup := nodup_filter_ids l _ h.nodup
+  placed := fun o ho => Nat.le_trans (h.placed o (List.mem_filter.mp ho).1) (Nat.le_add_right _ _)
+  alive := fun o ho => by simpa using (List.mem_filter.mp ho).2
+
 /-- Two sorted lists with the same elements are equal: the queue content determines the pop
 order (arrival-order independence). -/
 theorem sorted_perm_unique (side : Bool) (l₁ l₂ : List (Order P)) (hp : l₁.Perm l₂)
